@@ -1,7 +1,8 @@
 (* Property C08: c2mir lays out and passes C data exactly as the x86-64 SysV ABI does.
    Only the property theorems, each closed by [exact] and followed by Print Assumptions. *)
 From Coq Require Import List ZArith.
-From MirV Require Import C08.CLayout C08.SysVLayout C08.StepProofs C08.LayoutProofs.
+From MirV Require Import C08.CLayout C08.SysVLayout C08.CClassify C08.SysVClassify C08.StepProofs
+  C08.LayoutProofs C08.ClassifyProofs.
 Import ListNotations.
 Local Open Scope Z_scope.
 
@@ -49,3 +50,55 @@ Example c08_example_layout :
   = (48, 16, [(0, -1, 1); (0, 8, 3); (4, -1, 2); (8, 0, 33); (13, -1, 1);
               (16, -1, 16); (16, -1, 4); (16, -1, 16); (32, -1, 3); (36, -1, 4)]).
 Proof. vm_compute. reflexivity. Qed.
+
+(* ------------------------------------------------------------------ classification *)
+
+(* The full statement "for every aggregate c2mir's classification is the psABI's" is FALSE of the
+   faithful model (and of c2m: KNOWN_FINDINGS classify:padding-eightbyte): an eightbyte that holds
+   nothing but padding - possible only through a trailing zero-width bit-field of a nested struct -
+   is NO_CLASS in the psABI (no register; gcc and clang agree) and INTEGER in c2mir. *)
+Theorem classify_eq_sysv_refuted : exists t,
+  wf_ty t = true /\ is_agg t = true /\
+  option_map (map tr) (classify_arg t) <> sysv_classify t.
+Proof.
+  exists padding_witness. destruct classify_refuted as (H1 & H2 & H3 & H4).
+  split; [exact H1|]. split; [exact H2|]. rewrite H3, H4. discriminate.
+Qed.
+Print Assumptions classify_eq_sysv_refuted.
+
+(* Everywhere else - every well-formed struct/union without a padding-only eightbyte ([no_pad], an
+   executable guard on the psABI side) - classify_arg/classify_fields compute the psABI classes of
+   the eightbytes (or MEMORY): field positions from the proved-equal layouts, merge rules (a)-(f),
+   the post-merger clean-up at every struct/union level, > 16 bytes => MEMORY. *)
+Theorem classify_eq_sysv_partial : forall t,
+  wf_ty t = true -> is_agg t = true -> no_pad t = true ->
+  option_map (map tr) (classify_arg t) = sysv_classify t.
+Proof. exact classify_eq_sysv_partial_lemma. Qed.
+Print Assumptions classify_eq_sysv_partial.
+
+(* the MIR block type (BLK0..4) chosen for an argument, given the registers already used, encodes
+   exactly the psABI assignment of its eightbytes to INTEGER / SSE registers or to memory
+   (including "no register left for some eightbyte => whole argument in memory"), and the register
+   counters advance identically *)
+Theorem blk_type_consistent : forall t ni nf,
+  wf_ty t = true -> is_agg t = true -> no_pad t = true ->
+  pass_aggregate_arg t ni nf =
+    (let '(pl, i2, f2) := sysv_pass_arg t ni nf in (blk_of_places pl, i2, f2)).
+Proof. exact blk_type_consistent_lemma. Qed.
+Print Assumptions blk_type_consistent.
+
+(* a returned struct/union travels in the registers the psABI prescribes (rax/rdx, xmm0/xmm1,
+   st0) or through the hidden pointer *)
+Theorem ret_eq_sysv : forall t,
+  wf_ty t = true -> is_agg t = true -> no_pad t = true ->
+  option_map (map rplace_of) (process_ret_type t) = sysv_return t.
+Proof. exact ret_eq_sysv_lemma. Qed.
+Print Assumptions ret_eq_sysv.
+
+(* non-vacuity of the guard: struct { long a; double d; } is well-formed, has no padding eightbyte,
+   and is passed INTEGER+SSE (BLK3) when registers are free, in memory after 6 integer arguments *)
+Definition c08_long_double : ty := TAgg false [ (MNamed, TBasic KLong); (MNamed, TBasic KDouble) ].
+Example c08_long_double_ok :
+  wf_ty c08_long_double = true /\ is_agg c08_long_double = true /\ no_pad c08_long_double = true /\
+  pass_aggregate_arg c08_long_double 0 0 = (3, 1, 1) /\ pass_aggregate_arg c08_long_double 6 0 = (0, 6, 0).
+Proof. vm_compute. auto 10. Qed.
